@@ -239,6 +239,19 @@ pub fn gen_peer_addr(ch: &mut Choices) -> p::peersharing::PeerAddress {
     }
 }
 
+/// Mostly short lists; one in sixteen is a long run of distinct addresses (up to 300, more than any
+/// amount a ShareRequest can ask for and more than the discovery high-water mark).
+pub fn gen_peer_list(ch: &mut Choices) -> Vec<p::peersharing::PeerAddress> {
+    if ch.draw("ps.peers.big", 16) == 15 {
+        let n = 1 + ch.draw("ps.peers.biglen", 300) as u32;
+        let base = ch.draw("ps.peers.base", 1 << 24) as u32;
+        let port = ch.draw("addr.port", 1 << 16) as u16;
+        (0..n).map(|i| p::peersharing::PeerAddress::V4(std::net::Ipv4Addr::from_bits((base << 8).wrapping_add(i)), port)).collect()
+    } else {
+        (0..ch.draw("ps.peers.len", 5)).map(|_| gen_peer_addr(ch)).collect()
+    }
+}
+
 pub fn gen_bitmaps(ch: &mut Choices) -> p::leiosfetch::Bitmaps {
     let n = ch.draw("bm.len", 4);
     let mut m = std::collections::BTreeMap::new();
@@ -294,7 +307,7 @@ pub fn gen_msg(proto: usize, k: u8, ch: &mut Choices) -> AnyMessage {
         }),
         PS => AnyMessage::PeerSharing(match k {
             0 => peersharing::Message::ShareRequest(ch.draw("ps.amount", 256) as u8),
-            1 => peersharing::Message::SharePeers((0..ch.draw("ps.peers.len", 5)).map(|_| gen_peer_addr(ch)).collect()),
+            1 => peersharing::Message::SharePeers(gen_peer_list(ch)),
             _ => peersharing::Message::Done,
         }),
         BF => AnyMessage::BlockFetch(match k {
